@@ -2,6 +2,7 @@ package pbfsim
 
 import (
 	"context"
+	"errors"
 	"fmt"
 	"strings"
 	"testing"
@@ -531,7 +532,7 @@ func runC07(t *testing.T, r *kit.Run) {
 		cancelled := res.cancelCalled
 		if errorBeforeStop {
 			r.Out.Probe("error-recorded-before-the-stop")
-			if cl.err == nil || cl.err == osm.ErrScannerClosed || cl.err == context.Canceled {
+			if cl.err == nil || errors.Is(cl.err, osm.ErrScannerClosed) || errors.Is(cl.err, context.Canceled) {
 				r.Out.Violate(cls+"/earlier-error-lost-after-stop", "%s: the scan had ended with an error at the damaged block before the stop; afterwards Err() = %v", desc, cl.err)
 				return
 			}
@@ -543,12 +544,12 @@ func runC07(t *testing.T, r *kit.Run) {
 				r.Out.Violate(cls+"/err-nil-after-stop", "%s: Err()==nil after the stop although only %d of %d objects were delivered", desc, delivered, total)
 				return
 			}
-		case cl.err == osm.ErrScannerClosed:
+		case errors.Is(cl.err, osm.ErrScannerClosed):
 			if !closedBefore {
 				r.Out.Violate(cls+"/err-closed-without-close", "%s: Err() reports the scanner-closed error but Close was never called", desc)
 				return
 			}
-		case cl.err == context.Canceled:
+		case errors.Is(cl.err, context.Canceled):
 			if !cancelled {
 				r.Out.Violate(cls+"/err-canceled-without-cancel", "%s: Err() reports context.Canceled but the caller's context was never cancelled (Close was called)", desc)
 				return
